@@ -49,6 +49,8 @@ type cpCase struct {
 	Seed       int64 `json:"seed,omitempty"`
 	Noise      int   `json:"noise,omitempty"`
 	Procs      int   `json:"gomaxprocs,omitempty"`
+	// Storm: write-only operation mix (the write buffer is pushed to as fast as the producers can)
+	Storm bool `json:"storm,omitempty"`
 }
 
 type cpEvent struct {
@@ -85,6 +87,7 @@ type cpResult struct {
 	PhaseReads int
 }
 
+var cpStormKinds = []string{"set", "set", "set", "set", "set", "computewrite", "invalidate", "setifabsent"}
 var cpKinds = []string{"set", "set", "set", "set", "setifabsent", "computewrite", "computeinvalidate", "computecancel", "invalidate", "get", "get", "getentry"}
 
 func genCPConfig(t *rapid.T, c *cpCase, needBound bool) {
@@ -149,6 +152,12 @@ func genCPS4(t *rapid.T, needBound bool) cpCase {
 	c.Noise = pick(t, "noise", 0, 1, 2)
 	c.Procs = pick(t, "procs", 16, 16, 4, 3)
 	c.Reentrant = rapid.IntRange(0, 2).Draw(t, "reentrant4") == 0
+	if c.Reentrant && c.Exec == 0 {
+		// A handler that writes to the cache must not run on the maintenance goroutine itself: with a caller-runs
+		// executor it is invoked under the (non-reentrant) eviction lock, and its write blocks on that lock as
+		// soon as the write buffer is full. Free-running cases can fill the buffer, so they use a real executor.
+		c.Exec = 1 + int(uint64(c.Seed)&1)
+	}
 	return c
 }
 
@@ -399,7 +408,11 @@ func runCP(c cpCase, s3 bool) *cpResult {
 					rng := rand.New(rand.NewSource(c.Seed + int64(g)*7919 + int64(ph)*104729))
 					for i := 0; i < c.OpsPerG; i++ {
 						kind := cpKinds[rng.Intn(len(cpKinds))]
-						if x := rng.Intn(400); x == 0 {
+						if c.Storm {
+							kind = cpStormKinds[rng.Intn(len(cpStormKinds))]
+						}
+						if x := rng.Intn(400); c.Storm {
+						} else if x == 0 {
 							kind = "invalidateall"
 						} else if x == 1 {
 							kind = "setmaximum"
@@ -652,6 +665,9 @@ func cpClasses(c cpCase, res *cpResult) []string {
 	if c.Reentrant {
 		cl = append(cl, "reentrant-handler")
 	}
+	if c.Storm {
+		cl = append(cl, "write-storm")
+	}
 	return cl
 }
 
@@ -670,11 +686,21 @@ type cpOracle struct {
 	nontrivial       func(cpCase, *cpResult) bool
 	forceStats       bool
 	forceExpiry      bool
+	storms           bool // half of the S4 cases are write storms
 }
 
 func runCPProp(t *testing.T, oc cpOracle) {
 	substrate := "free-running goroutines (S4): 2-10 goroutines x 20-1500 PRNG-driven operations per phase, 1-3 phases with the manual clock advanced only at the barriers between phases, GOMAXPROCS 3..16, optional yields/sleeps at the verif hook points; "
-	gen := func(t *rapid.T) cpCase { return genCPS4(t, oc.needBound) }
+	gen := func(t *rapid.T) cpCase {
+		c := genCPS4(t, oc.needBound)
+		if oc.storms && rapid.Bool().Draw(t, "storm") {
+			c.Storm = true
+			c.Goroutines = rapid.IntRange(6, 16).Draw(t, "stormg")
+			c.OpsPerG = rapid.IntRange(800, 3000).Draw(t, "stormops")
+			c.Phases = 1
+		}
+		return c
+	}
 	if oc.s3 {
 		substrate = "hook-point cooperative scheduler (S3): 2-4 threads x 1-7 operations, the generated []int picks which parked thread runs next at every verif hook point (incl. between a lookup and the recording of the read, after table computations, around evictions, inside the write buffer), cache-started goroutines are adopted as threads; "
 		gen = func(t *rapid.T) cpCase { return genCPS3(t, oc.needBound) }
@@ -781,4 +807,26 @@ func cpCauses(r *cpResult) map[otter.DeletionCause]bool {
 		m[e.Cause] = true
 	}
 	return m
+}
+
+// ---- C16, cache-level clause: no cache write is forgotten by the eviction and expiration policies --------
+
+func cpNoWriteForgotten(c cpCase, res *cpResult) error {
+	if err := cpBookkeeping(c, res); err != nil {
+		return err
+	}
+	if err := cpConservation(c, res); err != nil {
+		return err
+	}
+	if c.Bound != 0 {
+		return cpBound(c, res)
+	}
+	return nil
+}
+
+func TestC16_S4Writes(t *testing.T) {
+	runCPProp(t, cpOracle{prop: "C16", test: "S4Writes", storms: true, check: cpNoWriteForgotten,
+		rule: "concurrent writers against a running maintenance consumer (the write buffer is pushed to while a pass drains it, passes are cut off at their budget and re-run); oracle at quiescence, i.e. once every write event must have been consumed: the verif audit (every table node known to the eviction deques and the timer wheel and nothing else, weight counters exact, write buffer empty), " +
+			"the exactly-once ledger (every replaced or removed value reported to OnDeletion exactly once) and the size bound; non-trivial = >= 300 values written",
+		nontrivial: func(c cpCase, r *cpResult) bool { return len(r.Installed) >= 300 }})
 }
